@@ -26,7 +26,7 @@ def run(tier, seed):
     stats = {}
     tf = d / "udp.ndjson"
     n, users, pings, burst = (6, 4, 20, 60) if tier == "quick" else (16, 4, 30, 80)
-    p = vlib.run_driver(drv, ["udp", "-seed", seed, "-n", n, "-users", users, "-pings", pings, "-burst", burst, "-out", tf], timeout=3000)
+    p = vlib.run_driver(drv, ["udp", "-seed", seed, "-n", n, "-users", users, "-pings", pings, "-burst", burst, "-expire", 1 if tier == "quick" else 4, "-out", tf], timeout=3000)
     sc.parse_stats(p.stdout, stats)
     evs = vlib.read_ndjson(tf)
     notes = [e for e in evs if e.get("ev") == "ud.note"]
@@ -41,7 +41,7 @@ def run(tier, seed):
     v.add_cov(evaluations=sent, distinct_nontrivial=len([e for e in evs if e.get("ev") == "ud.ugot"]),
               rule="each evaluation is one datagram sent by one of several user sockets through a real frps / frpc pair (and a visitor frpc for sudp) in one sampled configuration of "
                    "kind udp/sudp x encryption x compression x mux x limit side x transport tcp/websocket/kcp/quic x udpPacketSize 600/1500/4000/8000; two proxies with their own logging echo backends; "
-                   "payload sizes 16..packet size plus datagrams of 0/1/5/15 bytes; phases: ping-pong at light load, tiny datagrams, burst, work connections cut at a relay, light load again; "
+                   "payload sizes 16..packet size plus datagrams of 0/1/5/15 bytes; phases: ping-pong at light load, (first configuration(s)) 31 s of silence so that the client's per-user sockets expire and light load again, tiny datagrams, burst, work connections cut at a relay, light load again; "
                    "non-trivial = replies that made the whole round trip",
               driver_stats=stats)
     v.assumptions += ["payloads are self-describing (proxy, user, sequence number, declared length, generated content) and verified where they arrive; the loopback interface does not duplicate or corrupt datagrams",
